@@ -35,21 +35,24 @@ MaxR(b, sp) == R("len_char_max", b, "", sp)
 PredA == R("predicate", 0, "has_a", "lit")
 ReLower == R("regex", 0, "re_lower", "lit")
 ReHasA == R("regex", 0, "re_has_a", "expr")      \* regex given as a path to a static
+ReADot == R("regex", 0, "re_a_dot", "lit")       \* "a.": no meta character but the dot
 
 Lens == {1, 2}
 AtMostOne(S) == {{}} \cup {{x} : x \in S}
 
-\* len_char_min <= len_char_max for literals; contradicting ones are spelled as expressions
-MinMax(S) ==
+\* len_char_min <= len_char_max for literals; contradicting ones are spelled as expressions - both of them, or only the
+\* minimum (the macro compares the two only when both are literals)
+MinMaxV(S) ==
   LET mins == {r \in S : r.k = "len_char_min"} maxs == {r \in S : r.k = "len_char_max"} IN
   IF \E a \in mins, b \in maxs : a.b > b.b
-  THEN {IF r.k \in {"len_char_min", "len_char_max"} THEN [r EXCEPT !.sp = "expr"] ELSE r : r \in S}
-  ELSE S
+  THEN {{IF r.k \in {"len_char_min", "len_char_max"} THEN [r EXCEPT !.sp = "expr"] ELSE r : r \in S},
+        {IF r.k = "len_char_min" THEN [r EXCEPT !.sp = "expr"] ELSE r : r \in S}}
+  ELSE {S}
 
 RuleSets ==
-  {MinMax(a \cup b \cup c \cup e \cup f) :
+  UNION {MinMaxV(a \cup b \cup c \cup e \cup f) :
      a \in AtMostOne({NE}), b \in AtMostOne({MinR(n, "lit") : n \in Lens}),
-     c \in AtMostOne({MaxR(n, "lit") : n \in Lens}), e \in AtMostOne({PredA}), f \in AtMostOne({ReLower, ReHasA})}
+     c \in AtMostOne({MaxR(n, "lit") : n \in Lens}), e \in AtMostOne({PredA}), f \in AtMostOne({ReLower, ReHasA, ReADot})}
 
 MaxRules == IF Tier = "c07" THEN 5 ELSE IF Tier = "quick" THEN 2 ELSE IF Tier = "c11" THEN 1 ELSE 3
 ValSeqs == UNION {Perms(S) : S \in {T \in RuleSets : T # {} /\ Cardinality(T) <= MaxRules}}
